@@ -353,7 +353,16 @@ impl<T: Chunky> Spec for ChunkAddSpec<T> {
         CState { est, items }
     }
     fn key(&self, s: &CState<T>) -> String {
-        let ms: Vec<Vec<u64>> = s.items.iter().map(|i| T::item_bits(i)).collect();
+        // run-length encoded sorted multiset (constant streams of length 10^4 would otherwise
+        // make every key O(n))
+        let mut ms: Vec<(Vec<u64>, u32)> = Vec::new();
+        for i in &s.items {
+            let b = T::item_bits(i);
+            match ms.last_mut() {
+                Some((lb, c)) if *lb == b => *c += 1,
+                _ => ms.push((b, 1)),
+            }
+        }
         match &s.est {
             Ok(e) => format!("{}|{:x?}", e.dbg(), ms),
             Err(m) => format!("panic:{m}|{:x?}", ms),
